@@ -9,10 +9,13 @@
     evaluated at `scale_sum(1, a_{i1}·dt, …)(x_tmp, x, k₁, …)`, the result at `scale_sum(1, b₁·dt, …)`.
   * `Op`, `State`, `step`, `run`: a register machine over a `LieModel`; registers hold group
     elements and tangents; ops are the LieGroupBase operations of the property
-    (`compose inverse exp rplus *= += cast<S> lift∘project odeint-step`).
+    (`compose inverse exp rplus *= += cast<S> lift project lift∘project odeint-step`).
   * `opWeight`: size of the expression tree of a register (every primitive op counts 1).
-  * `liftprojSO2`, `liftprojSE2`: `lift_so3().project_so2()` / `lift_se3().project_se2()` round trips
-    (so2.hpp:155, so3.hpp:125, se2.hpp:142, se3.hpp:142), own minimal versions.
+  * `Lifting`: the companion type of a group — target of `lift_so3()` / `lift_se3()`, source of
+    `project_so2()` / `project_se2()` (so2.hpp:153, so3.hpp:125, se2.hpp:142, se3.hpp:142; the
+    models are `Conv.lift_so3 …` of SmoothModel/Convert.lean).  The machine is two-sorted: element
+    registers `E` of the group, lifted registers `L` of the companion type; `lift : E → L`,
+    `project : L → E`, `liftproj = project ∘ lift`.  Groups without lifts carry `Lifting.triv`.
 
   Mathlib-free; instantiated at `Float`/`Float32` by the driver (T1) and at `ℝ` by SmoothProps/C15.
 -/
@@ -20,6 +23,8 @@ import SmoothModel.Lin
 import SmoothModel.Group
 import SmoothModel.SO2
 import SmoothModel.SO3
+import SmoothModel.Convert
+import SmoothModel.Groups
 
 open Scalar Lin
 
@@ -142,18 +147,29 @@ def stepperOf (id : Nat) : Tableau α :=
   | 3 => dopri5
   | _ => fehlberg78
 
--- ---------------------------------------------------------------- lift / project round trips
-/-- `SO2::lift_so3().project_so2()` -/
-def liftprojSO2 (g : Vec α 2) : Vec α 2 :=
-  let yaw := Scalar.atan2 (g 0) (g 1)
-  let qq := memoV (SO3.ofQuat (mk4 (nat 0) (nat 0) (Scalar.sin (yaw / nat 2)) (Scalar.cos (yaw / nat 2))))
-  let yaw' := Scalar.atan2 (nat 2 * (qq 3 * qq 2 + qq 0 * qq 1)) (nat 1 - nat 2 * (qq 1 * qq 1 + qq 2 * qq 2))
-  mk2 (Scalar.sin yaw') (Scalar.cos yaw')
+-- ---------------------------------------------------------------- companion types (lift / project)
+/-- the companion type of a group: `lrep` coefficients, `lift : G → companion`,
+    `project : companion → G`, `lid` = the companion's identity (default register content) -/
+structure Lifting (α : Type) [Scalar α] (G : LieModel α) where
+  lrep : Nat
+  lift : Vec α G.rep → Vec α lrep
+  project : Vec α lrep → Vec α G.rep
+  lid : Vec α lrep
 
-/-- `SE2::lift_se3().project_se2()`: translation copied, rotation through `liftprojSO2` -/
-def liftprojSE2 (g : Vec α 4) : Vec α 4 :=
-  let r := memoV (liftprojSO2 (mk2 (g 2) (g 3)))
-  mk4 (g 0) (g 1) (r 0) (r 1)
+/-- groups without lifts: the companion is the group itself, `lift = project = id` -/
+def Lifting.triv (G : LieModel α) : Lifting α G := ⟨G.rep, id, id, G.identity⟩
+
+/-- SO2 → SO3: `lift_so3()` (so2.hpp:153), `project_so2()` (so3.hpp:125) -/
+def so2Lifting : Lifting α (SO2.model : LieModel α) :=
+  ⟨4, fun g => Conv.lift_so3 (α := α) g, fun q => Conv.project_so2 (α := α) q, SO3.identity⟩
+
+/-- SE2 → SE3: `lift_se3()` (se2.hpp:142), `project_se2()` (se3.hpp:142) -/
+def se2Lifting : Lifting α (SE2.model : LieModel α) :=
+  ⟨7, fun g => Conv.lift_se3 (α := α) g, fun q => Conv.project_se2 (α := α) q, SE3.identity⟩
+
+/-- `E[a].lift().project()` -/
+def Lifting.lp {G : LieModel α} (C : Lifting α G) (g : Vec α G.rep) : Vec α G.rep :=
+  C.project (memoV (C.lift g))
 
 -- ---------------------------------------------------------------- register machine
 inductive Op (α : Type) (dof : Nat) where
@@ -167,10 +183,13 @@ inductive Op (α : Type) (dof : Nat) where
   | liftproj (d a : Nat)         -- E[d] = E[a].lift().project()
   | setTan (d : Nat) (v : Vec α dof)
   | ode (d a t : Nat) (tab : Tableau α) (h : α)   -- E[d] = do_step from E[a], ẋ = x·T[t]^
+  | lift (d a : Nat)             -- L[d] = E[a].lift()
+  | project (d a : Nat)          -- E[d] = L[a].project()
 
-structure State (α : Type) [Scalar α] (G : LieModel α) where
+structure State (α : Type) [Scalar α] (G : LieModel α) (C : Lifting α G) where
   E : Nat → Vec α G.rep
   T : Nat → Vec α G.dof
+  L : Nat → Vec α C.lrep
 
 def upd {β : Type} (f : Nat → β) (d : Nat) (v : β) : Nat → β := fun i => if i = d then v else f i
 
@@ -178,8 +197,8 @@ def upd {β : Type} (f : Nat → β) (d : Nat) (v : β) : Nat → β := fun i =>
 def odeTangent (G : LieModel α) (tab : Tableau α) (h : α) (v : Vec α G.dof) (x : Vec α G.rep) : Vec α G.dof :=
   rkTangent (alg G) (fun _ _ => v) tab (nat 0) h x
 
-/-- semantics of one op (`lp` = the group's lift∘project round trip, identity where there is none) -/
-def step (G : LieModel α) (lp : Vec α G.rep → Vec α G.rep) (s : State α G) : Op α G.dof → State α G
+/-- semantics of one op (`C` = the group's companion type; `Lifting.triv` where there is none) -/
+def step (G : LieModel α) (C : Lifting α G) (s : State α G C) : Op α G.dof → State α G C
   | .compose d a b => { s with E := upd s.E d (memoV (G.composition (s.E a) (s.E b))) }
   | .inverse d a => { s with E := upd s.E d (memoV (G.inverse (s.E a))) }
   | .exp d t => { s with E := upd s.E d (memoV (G.exp (s.T t))) }
@@ -187,16 +206,18 @@ def step (G : LieModel α) (lp : Vec α G.rep → Vec α G.rep) (s : State α G)
   | .mulAssign d a => { s with E := upd s.E d (memoV (G.composition (s.E d) (s.E a))) }
   | .plusAssign d t => { s with E := upd s.E d (memoV (G.rplus (s.E d) (s.T t))) }
   | .castSame d a => { s with E := upd s.E d (s.E a) }
-  | .liftproj d a => { s with E := upd s.E d (memoV (lp (s.E a))) }
+  | .liftproj d a => { s with E := upd s.E d (memoV (C.lp (s.E a))) }
   | .setTan d v => { s with T := upd s.T d v }
   | .ode d a t tab h => { s with E := upd s.E d (memoV (G.rplus (s.E a) (odeTangent G tab h (s.T t) (s.E a)))) }
+  | .lift d a => { s with L := upd s.L d (memoV (C.lift (s.E a))) }
+  | .project d a => { s with E := upd s.E d (memoV (C.project (s.L a))) }
 
-def run (G : LieModel α) (lp : Vec α G.rep → Vec α G.rep) (ops : List (Op α G.dof)) (s : State α G) : State α G :=
-  ops.foldl (step G lp) s
+def run (G : LieModel α) (C : Lifting α G) (ops : List (Op α G.dof)) (s : State α G C) : State α G C :=
+  ops.foldl (step G C) s
 
 /-- the tangents one op hands to `exp` (the exp arguments of the stage evaluations of `ode` ops
     are not listed: their results are discarded by a constant system) -/
-def expArgsOp (G : LieModel α) (s : State α G) : Op α G.dof → List (Vec α G.dof)
+def expArgsOp (G : LieModel α) {C : Lifting α G} (s : State α G C) : Op α G.dof → List (Vec α G.dof)
   | .exp _ t => [s.T t]
   | .rplus _ _ t => [s.T t]
   | .plusAssign _ t => [s.T t]
@@ -204,26 +225,39 @@ def expArgsOp (G : LieModel α) (s : State α G) : Op α G.dof → List (Vec α 
   | _ => []
 
 /-- every tangent that reaches `exp` during a history -/
-def expArgs (G : LieModel α) (lp : Vec α G.rep → Vec α G.rep) : List (Op α G.dof) → State α G → List (Vec α G.dof)
+def expArgs (G : LieModel α) (C : Lifting α G) : List (Op α G.dof) → State α G C → List (Vec α G.dof)
   | [], _ => []
-  | o :: rest, s => expArgsOp G s o ++ expArgs G lp rest (step G lp s o)
+  | o :: rest, s => expArgsOp G s o ++ expArgs G C rest (step G C s o)
+
+/-- expression-tree sizes of the element registers (`.1`) and of the lifted registers (`.2`) -/
+abbrev Weights := (Nat → Nat) × (Nat → Nat)
+
+def W0 : Weights := (fun _ => 0, fun _ => 0)
 
 /-- expression-tree size of the registers: every primitive operation counts 1
-    (`rplus = compose ∘ exp` counts 2) -/
-def opWeightStep {dof : Nat} (w : Nat → Nat) : Op α dof → Nat → Nat
-  | .compose d a b => upd w d (w a + w b + 1)
-  | .inverse d a => upd w d (w a + 1)
-  | .exp d _ => upd w d 1
-  | .rplus d a _ => upd w d (w a + 1 + 1)
-  | .mulAssign d a => upd w d (w d + w a + 1)
-  | .plusAssign d _ => upd w d (w d + 1 + 1)
-  | .castSame d a => upd w d (w a)
-  | .liftproj d a => upd w d (w a + 1)
+    (`rplus = compose ∘ exp` and `liftproj = project ∘ lift` count 2) -/
+def opWeightStep {dof : Nat} (w : Weights) : Op α dof → Weights
+  | .compose d a b => (upd w.1 d (w.1 a + w.1 b + 1), w.2)
+  | .inverse d a => (upd w.1 d (w.1 a + 1), w.2)
+  | .exp d _ => (upd w.1 d 1, w.2)
+  | .rplus d a _ => (upd w.1 d (w.1 a + 1 + 1), w.2)
+  | .mulAssign d a => (upd w.1 d (w.1 d + w.1 a + 1), w.2)
+  | .plusAssign d _ => (upd w.1 d (w.1 d + 1 + 1), w.2)
+  | .castSame d a => (upd w.1 d (w.1 a), w.2)
+  | .liftproj d a => (upd w.1 d (w.1 a + 1 + 1), w.2)
   | .setTan _ _ => w
-  | .ode d a _ _ _ => upd w d (w a + 1 + 1)
+  | .ode d a _ _ _ => (upd w.1 d (w.1 a + 1 + 1), w.2)
+  | .lift d a => (w.1, upd w.2 d (w.1 a + 1))
+  | .project d a => (upd w.1 d (w.2 a + 1), w.2)
 
-def opWeight {dof : Nat} (ops : List (Op α dof)) (w0 : Nat → Nat) : Nat → Nat :=
+def opWeights {dof : Nat} (ops : List (Op α dof)) (w0 : Weights) : Weights :=
   ops.foldl opWeightStep w0
+
+/-- tree size of element register `r` after the history -/
+def opWeight {dof : Nat} (ops : List (Op α dof)) (w0 : Weights) : Nat → Nat := (opWeights ops w0).1
+
+/-- tree size of lifted register `r` after the history -/
+def opWeightL {dof : Nat} (ops : List (Op α dof)) (w0 : Weights) : Nat → Nat := (opWeights ops w0).2
 
 end
 
